@@ -24,6 +24,7 @@
      kind `pipe` (five ways of assembling the same chain, compared with each other and with the
      chain of machines).
 -/
+import RoProofs.Precision
 import RoProofs.Ops.MoreSpecs
 import RoProofs.Ops.CreateSpecs
 import RoModel.DelegationFacts
@@ -312,6 +313,30 @@ theorem rangeWithStep (start endv : Int) (step : Nat) (hs : 0 < step) (c : Ctx) 
     (rangeStepG start endv (step : Int)).dropped c = [] :=
   rangeStepG_delivered start endv step hs c
 
+/-! ### FloorWithPrecision / CeilWithPrecision (operator_math.go; tie: kind=precision, integers compared) -/
+
+/-- `FloorWithPrecision(places)` on `x = m / 2^k`: `n / 10^places` with `n` the greatest integer such that `n / 10^places ≤ x`
+    (written without division: `n · den ≤ num < (n+1) · den` for `x · 10^places = num / den`) -/
+theorem floorWithPrecision (m : Int) (k : Nat) (places : Int) :
+    Precision.floorN m k places * (Precision.scaled m k places).2 ≤ (Precision.scaled m k places).1 ∧
+    (Precision.scaled m k places).1 < (Precision.floorN m k places + 1) * (Precision.scaled m k places).2 :=
+  Precision.floorN_spec m k places
+
+/-- `CeilWithPrecision(places)`: the least such integer from above -/
+theorem ceilWithPrecision (m : Int) (k : Nat) (places : Int) :
+    (Precision.ceilN m k places - 1) * (Precision.scaled m k places).2 < (Precision.scaled m k places).1 ∧
+    (Precision.scaled m k places).1 ≤ Precision.ceilN m k places * (Precision.scaled m k places).2 :=
+  Precision.ceilN_spec m k places
+
+/-- floor ≤ ceiling, at most one step apart; a multiple of the step is a fixed point of both -/
+theorem precision_floor_le_ceil (m : Int) (k : Nat) (places : Int) :
+    Precision.floorN m k places ≤ Precision.ceilN m k places ∧ Precision.ceilN m k places ≤ Precision.floorN m k places + 1 :=
+  Precision.floor_le_ceil m k places
+
+theorem precision_fixed_point (m : Int) (k : Nat) (places n : Int)
+    (h : (Precision.scaled m k places).1 = n * (Precision.scaled m k places).2) :
+    Precision.floorN m k places = n ∧ Precision.ceilN m k places = n := Precision.fixed_point m k places n h
+
 /-- a creation operator under any machine: the existing run theorem with a synchronous source
     playing the generated script -/
 theorem create_pipe {σ α β : Type} (g : Gen α) (m : Machine σ α β) (c : Ctx) (hs : m.subscribes = true) :
@@ -341,6 +366,10 @@ end Ro.C04d
 #print axioms Ro.C04d.ctxWithValue
 #print axioms Ro.C04d.range
 #print axioms Ro.C04d.rangeWithStep
+#print axioms Ro.C04d.floorWithPrecision
+#print axioms Ro.C04d.ceilWithPrecision
+#print axioms Ro.C04d.precision_floor_le_ceil
+#print axioms Ro.C04d.precision_fixed_point
 #print axioms Ro.C04d.create_pipe
 #print axioms Ro.ctxWithValue_spec
 #print axioms Ro.contextMap_spec
